@@ -133,7 +133,13 @@ func VerifC17FailClosed(k int) {
 			continue
 		}
 		var c config.PluginConfig
-		switch verifrt.Choice("defect", 13) {
+		switch verifrt.Choice("defect", 16) {
+		case 13: // "apiKey:" with nothing after it (an unset template variable) decodes to nil
+			c = config.PluginConfig{Name: "custom-auth", Config: map[string]interface{}{"apiKey": nil}}
+		case 14:
+			c = config.PluginConfig{Name: "custom-auth", Config: map[string]interface{}{"apiKey": []interface{}{"a", "b"}}}
+		case 15:
+			c = config.PluginConfig{Name: "custom-auth", Config: map[string]interface{}{"apiKey": true}}
 		case 10: // the name is missing (a misspelled "name:" key decodes to this): which plugin was meant is unknown
 			c = config.PluginConfig{Config: map[string]interface{}{"apiKey": "sesame"}}
 		case 11:
